@@ -337,7 +337,7 @@ def run(ctx, report: Report) -> None:
     tx = TableExtractor(ctx, mod, fn)
 
     # ---- R1: locate the structure -------------------------------------------------------------------------
-    r1 = report.rule('C10-R1', 'escape() decision table extracted symbolically', floor=6)
+    r1 = report.rule('C10-R1', 'escape() decision table extracted symbolically', floor=4)
     def symbolic():
         loop = None
         for n in walk_no_nested(fn):
@@ -536,7 +536,7 @@ def run(ctx, report: Report) -> None:
                          f'escape() returns {w2!r} unchanged although it contains a backslash, which decodes differently')
 
     # ---- R3: decode(encode(c)) == c ----------------------------------------------------------------------------
-    r3 = report.rule('C10-R3', 'decoding inverts encoding, class by class', floor=6)
+    r3 = report.rule('C10-R3', 'decoding inverts encoding, class by class', floor=4)
     # decoder tables
     esc = inv.by_name('css_parser.RE_CSS_ESC')
     s = rx.System()
@@ -591,7 +591,7 @@ def run(ctx, report: Report) -> None:
                              f'escape(): for {where} the output {tpl} does not decode back to the character: {why}')
 
     # ---- R4: no partial operation ------------------------------------------------------------------------------
-    r4 = report.rule('C10-R4', 'escape() contains no partial operation', floor=2)
+    r4 = report.rule('C10-R4', 'escape() contains no partial operation', floor=1)
     allowed = {'len', 'enumerate', 'ord', 'join', 'append', 'match', 'fullmatch', 'startswith', 'endswith'} | STR_PREDICATES
     todo, seen_f = [('escape', fn)], set()
     while todo:
@@ -634,7 +634,7 @@ def run(ctx, report: Report) -> None:
                      f'escape("") gives {empty!r} instead of "": a subscript or comparison is not guarded by a length test')
 
     # ---- R5: pattern text reaches the tokenizer unmodified -----------------------------------------------------
-    r5 = report.rule('C10-R5', 'pattern text travels from compile() to the tokenizer unmodified', floor=2)
+    r5 = report.rule('C10-R5', 'pattern text travels from compile() to the tokenizer unmodified', floor=1)
     from .sem import pattern_handover_table
     pattern_handover_table(ctx, r5)
 
